@@ -78,11 +78,17 @@ type Chunk struct {
 }
 
 type Case struct {
-	Kind   string   `json:"kind"`   // parse | text | filter | rotate
+	Kind   string   `json:"kind"`   // parse | text | filter | rotate | play
 	Stream string   `json:"stream"` // corpus printed raw malformed text filter
 	Line   string   `json:"line,omitempty"`
 	Text   []Chunk  `json:"text,omitempty"`
 	Evs    []Ev     `json:"evs,omitempty"`
+	// kind play: the lines of a play file, how long the consumer takes before accepting each
+	// message, how long the checker takes for each condition, and what the consumers stamped
+	Lines    []string `json:"lines,omitempty"`
+	AcceptMs []int    `json:"accept_ms,omitempty"`
+	CondMs   []int    `json:"cond_ms,omitempty"`
+	Play     *PlayObs `json:"play,omitempty"`
 	Evs2   []Ev     `json:"evs2,omitempty"` // kind rotate: received while the log file cannot be written
 	Evs3   []Ev     `json:"evs3,omitempty"` // kind rotate: received after the rotation recovered
 	Out3   []string `json:"out3,omitempty"` // kind rotate: the log file after the recovery
@@ -736,6 +742,8 @@ func (c *Case) coq() string {
 	case "parse":
 		d, r, n := c.tables()
 		return lib.App("CParse", d, r, n, lib.Str(c.Line), c.Obs.coq())
+	case "play":
+		return c.coqPlay()
 	case "text":
 		if c.OracleOnly {
 			return "(CText [] [] [] [] [] 0%N false false [] [] [])"
@@ -932,6 +940,14 @@ func main() {
 			rotated = append(rotated, &Case{Kind: "rotate", Stream: "rotate", Evs: e1, Evs2: e2, Evs3: e3})
 		}
 	}
+	// small play files played by the real Play against instrumented consumers
+	var played []*Case
+	if a.Replay == "" {
+		for k := 0; k < a.Pick(4, 30); k++ {
+			ls, acc, cond := genPlay(rng.Fork())
+			played = append(played, &Case{Kind: "play", Stream: "play", Lines: ls, AcceptMs: acc, CondMs: cond})
+		}
+	}
 	rotatedNote = make([]string, len(rotated))
 	stalledDirect = make([][]string, len(stalled))
 	go func() {
@@ -941,6 +957,17 @@ func main() {
 			go func(k int) {
 				defer wg.Done()
 				stalledDirect[k] = runFilterStalled(stalled[k])
+			}(k)
+		}
+		// at most 6 play scenarios at a time (thorough tier has 30)
+		sem := make(chan struct{}, 6)
+		for k := range played {
+			wg.Add(1)
+			go func(k int) {
+				defer wg.Done()
+				sem <- struct{}{}
+				runPlay(played[k])
+				<-sem
 			}(k)
 		}
 		for k := range rotated {
@@ -989,6 +1016,10 @@ func main() {
 			}
 			res.CountN("filter-events", len(c.Evs))
 			res.CountN("filter-lines-logged", len(c.Out))
+		case "play":
+			runPlay(c) // a replay
+			oraclePlay(c, i, res)
+			res.Count("play")
 		case "rotate":
 			note := runRotate(c) // a replay
 			oracleRotate(c, note, i, res)
@@ -1015,6 +1046,17 @@ func main() {
 			continue
 		}
 		oracleFilter(c, stalledDirect[k], i, res)
+		cases = append(cases, *c)
+		coq = append(coq, c.coq())
+		res.Cases = append(res.Cases, *c)
+	}
+	for _, c := range played {
+		i := len(cases)
+		res.Count("play")
+		res.CountN("play:messages-handed-over", len(c.Play.Sent))
+		res.CountN("play:conditions-handed-to-the-checker", len(c.Play.Cond))
+		res.CountN("play:ms-played", int(c.Play.TookMs))
+		oraclePlay(c, i, res)
 		cases = append(cases, *c)
 		coq = append(coq, c.coq())
 		res.Cases = append(res.Cases, *c)
